@@ -5,9 +5,9 @@ from .. import env, coq, runner, tables
 
 LEVEL = 'proof'
 META = dict(
-    text='Coq theorems over a hand-written Gallina model of measurement keys (path, name), key maps, scoped lookup of control keys, classical conditions and CircuitOperation (all fields; _mapped_any_loop / _mapped_single_loop / mapped_circuit, the with_* / repeat / rescoping constructors): key prefixing and key maps compose, a control key binds to the innermost enclosing bound measurement, remapping a condition changes only its key iff both replace_key implementations keep the other fields (the two booleans are read off the working tree on every run), and the attributes a nested operation reports equal those of its unrolled circuit. The model is evaluated with vm_compute on generated nestings and compared exactly with the implementation (mapped_circuit shallow/deep, decompose, unroll_circuit_op, key/control-key/parameter/qubit sets, constructor compositions); spec-level oracles on the real code compare wrapped and unrolled circuits by unitary and by simulated records.',
-    note='Trusted: Coq kernel; vf/checks/c12.py (building Cirq objects from case records, decoding Cirq objects back, printing Gallina literals); leaves other than CircuitOperation are abstract (identifier, inversion flag, qubits, keys, conditions, parameters); key equality is componentwise (path, name), equal to Cirq\'s string equality when no path component contains ":"; sympy conditions are modelled by simultaneous substitution (the specification). Theorems are closed under the global context.',
-    technique='Rocq/Coq proof over an executable Gallina model + vm_compute correspondence against the implementation + differential simulation oracles',
+    text='Coq theorems (closed under the global context) over a hand-written Gallina model of measurement keys (path, name), key maps, scoped lookup of control keys, classical conditions and CircuitOperation with all its fields, written in the shape of the code (_mapped_any_loop: qubit map -> inverse for negative repetitions -> key map -> parameters; _mapped_single_loop: rescoping with the repetition id, then with parent path and extern keys; mapped_circuit with repetition ids vs plain repetition and deep recursion through Circuit.zip; the with_qubit_mapping / with_measurement_key_mapping / with_params / repeat(-1) / _with_rescoped_keys_ compositions pushed onto nested operations). Proved for every nesting depth, repetition count (positive or negative, non-zero), repetition ids, qubit/key/parameter maps and parent paths: the measurement keys and the qubits a nested operation reports equal those of its completely unrolled circuit; the unrolled circuit consists, moment by moment, of exactly the leaves a compositional semantics prescribes (which operation, inverted or not, on which qubits); key prefixing and key maps compose, control keys bind to the innermost enclosing bound measurement and never to a key bound later; remapping a condition changes only its key iff both replace_key implementations keep the other fields (two booleans read off the working tree on every run: false today, defect F2, with the refutation witness proved); constructor compositions; repeat_until = least number of passes (under fuel). The zero-repetition case is refuted by a proved witness (F7). On every run the model is evaluated with vm_compute on generated nestings (depth 0-3) and compared exactly with the implementation: mapped_circuit shallow/deep moment by moment, measurement/control key sets, parameter names, qubits, is_measurement, touched key names and the fields after one further remapping of each kind; spec-level oracles on the real code compare the wrapped operation with its unrolled circuit by unitary (incl. the single-qubit fast path), deterministic simulation records, exact outcome distribution (scripted seed object enumerating every measurement branch), repeat_until loop counts, scoping templates with independently known outcomes, decompose / unroll_circuit_op* and remapping-commutes-with-unrolling.',
+    note='Trusted: Coq kernel; vf/checks/c12.py (building Cirq objects from case records, decoding Cirq objects back, printing Gallina literals, the Python oracles); vf/tables_c12.py. Leaves other than CircuitOperation are abstract (identifier, inversion flag, qubits, keys, conditions, one parameter) and are instantiated by six gate families, measurements and classically controlled gates; key equality is componentwise (path, name), equal to Cirq\'s string equality when no path component contains ":"; sympy conditions are restricted to five expression templates and modelled by simultaneous substitution (the implementation deviates: F13); key-map / qubit-map collision checks of the with_* methods are not modelled (generated maps are injective); control keys and conditions of the unrolled circuit, parameter names and repeat_until are compared with the model but have no unrolling theorem; tagged or classically controlled CircuitOperations are covered by the simulation oracle only. Eleven recorded defects of the working tree are listed in known_findings/C12.json.',
+    technique='Rocq/Coq proof over an executable Gallina model + vm_compute correspondence against the implementation + differential simulation oracles (exact branch enumeration)',
 )
 
 NAMES = ['a', 'b', 'c', 'd', 'm']
@@ -1601,11 +1601,20 @@ def dist_stream(ctx, cirq, V, n):
 def run(ctx):
     cirq = env.import_cirq()
     V = Vocab(cirq)
-    ctx.rule = ('keys: random (path, name) keys, prefixes, key maps, bindable sets (a binding planted in 70% of cases); '
-                'conditions of all three kinds with index/bitmask/target; non-trivial = non-empty path or map; distinct by canonical input')
+    ctx.rule = ('keys/conditions: random (path, name) keys, prefixes, key maps, bindable sets (a binding planted in 70% of cases), conditions '
+                'of all three kinds with index/bitmask/target; struct: generated CircuitOperation nests of depth 0-3 (exact depth drawn from '
+                '{0,1,1,2,2,3}), repetitions from {0,1,2,3,-1,-2,symbolic}, default/custom repetition ids, injective qubit and key maps '
+                '(swaps and chains included), parameter maps to numbers or symbols, parent paths, controls on inner and outer keys, one '
+                'further remapping of each kind per case; unitary: pure nests incl. single-qubit bodies; sim: X/CNOT/measure/control nests '
+                'with all control keys bound, optionally under a classical control; distribution: nests with <= 5 measured bits, all '
+                'branches enumerated; until: loops whose condition holds within 6 passes; scoping: two template families with known '
+                'outcome.  non-trivial = nesting depth >= 2 or any map / ids / path / repetitions != 1 (struct), >= 2 records (sim), '
+                '>= 2 branches (distribution); distinct by canonical record')
     ctx.assumptions += ['vf/checks/c12.py: construction of Cirq objects from case records and decoding back',
                         'key equality modelled componentwise (no ":" inside path components)',
-                        'sympy conditions restricted to five expression templates']
+                        'sympy conditions restricted to five expression templates, modelled by simultaneous substitution',
+                        'collision checks of with_qubit_mapping / with_measurement_key_mapping not modelled (generated maps injective)',
+                        'theorems about the unrolled circuit assume non-zero integer repetition counts and len(repetition_ids) = |repetitions|']
     err = tables.regenerate(['CondTables'])
     if err['CondTables']:
         ctx.mark_broken('table:CondTables', err['CondTables'])
